@@ -442,13 +442,19 @@ func famConc(tr *Trace, scratch string, seed int64, tier string) M {
 		{"rpm", "apk", "ipk"}, {"rpm", "rpm", "archlinux"}}
 	id := 0
 	runs := 0
+	// VERIF_CONC_SEQUENTIAL=1: the same rounds with the goroutines run one after the other - the control run that tells a
+	// crash caused by concurrency from one the configuration causes on its own (bin/check c12)
+	sequential := os.Getenv("VERIF_CONC_SEQUENTIAL") == "1"
+	var panicMu sync.Mutex
 	// Nothing is packaged sequentially before the first concurrent round: state that the code initialises lazily on first
 	// use must be initialised race-free too.  Outputs are compared with the sequential builds made afterwards.
 	type concRes struct {
-		s    *isoShape
-		set  []string
-		mode string
-		outs [][]string
+		s      *isoShape
+		set    []string
+		mode   string
+		outs   [][]string
+		panics int
+		first  string
 	}
 	var all []*concRes
 	for _, s := range shapes {
@@ -473,10 +479,24 @@ func famConc(tr *Trace, scratch string, seed int64, tier string) M {
 						for gi := range set {
 							spins[gi] = rng.Intn(3)
 						}
+						if sequential {
+							close(start)
+						}
 						for gi, f := range set {
 							wg.Add(1)
 							go func(gi int, f string) {
 								defer wg.Done()
+								defer func() {
+									if r := recover(); r != nil {
+										res[gi] = "panic"
+										panicMu.Lock()
+										cr.panics++
+										if cr.first == "" {
+											cr.first = fmt.Sprint(r)
+										}
+										panicMu.Unlock()
+									}
+								}()
 								cfgp := &shared
 								if mode != "shared-config" {
 									c2, err := parseCfg(s.yaml)
@@ -497,8 +517,13 @@ func famConc(tr *Trace, scratch string, seed int64, tier string) M {
 								}
 								res[gi] = hashBytes(b)
 							}(gi, f)
+							if sequential {
+								wg.Wait()
+							}
 						}
-						close(start)
+						if !sequential {
+							close(start)
+						}
 						wg.Wait()
 						cr.outs = append(cr.outs, res)
 						runs++
@@ -537,7 +562,8 @@ func famConc(tr *Trace, scratch string, seed int64, tier string) M {
 			fm = append(fm, f)
 		}
 		tr.Emit(id, []M{{"ev": "case", "id": id, "fam": "conc", "shape": cr.s.name},
-			{"ev": "conc", "shape": cr.s.name, "mode": cr.mode, "formats": fm, "builds": total, "mismatches": mismatches}, {"ev": "endcase"}})
+			{"ev": "conc", "shape": cr.s.name, "mode": cr.mode, "formats": fm, "builds": total, "mismatches": mismatches,
+				"panics": cr.panics, "first_panic": safeStr(firstN(cr.first, 300))}, {"ev": "endcase"}})
 	}
 	return M{"cases": id, "concurrent_rounds": runs}
 }
